@@ -3,7 +3,7 @@
 # (made by independent agents, see tools/benignprompt.template) together to a scratch worktree of /repo main and run
 # every claimed quick check against it (VERIF_REPO). Patches that do not apply on top of the others are reported and skipped.
 stage=$1; shift
-W=/tmp/benignrepo
+W=${BENIGN_W:-/tmp/benignrepo}
 git -C /repo worktree remove --force $W 2>/dev/null; git -C /repo worktree prune
 git -C /repo worktree add -q --detach $W main || exit 2
 applied=""
